@@ -37,12 +37,14 @@ type poolStats struct {
 	MaxReleasedCap              int
 	CompGets, CompReuse         int
 	DoublePutBuf, DoublePutComp int // the same object handed back while it is still in the pool
+	Vanished                    int // entries dropped as if by a GC
 }
 
 type pools struct {
 	lists [maxPools]freeList
 	nl    int
 	fifo  bool
+	drop  uint32 // non-zero: entries vanish now and then, as a sync.Pool's do at a GC (LCG state)
 	stats poolStats
 }
 
@@ -50,14 +52,14 @@ var curPools *pools
 
 var poolsCache []*pools
 
-func newPools(fifo bool) *pools {
+func newPools(fifo bool, drop uint32) *pools {
 	if n := len(poolsCache); n > 0 {
 		p := poolsCache[n-1]
 		poolsCache = poolsCache[:n-1]
-		p.fifo = fifo
+		p.fifo, p.drop = fifo, drop
 		return p
 	}
-	return &pools{fifo: fifo}
+	return &pools{fifo: fifo, drop: drop}
 }
 
 // recycle clears the used part of a finished run's pools and keeps the
@@ -121,6 +123,13 @@ func (p *pools) take(owner any, kind int) any {
 	l.items[idx%poolSlots] = nil
 	if l.head == l.n {
 		l.head, l.n = 0, 0
+	}
+	if p.drop != 0 {
+		p.drop = p.drop*1664525 + 1013904223
+		if (p.drop>>16)%4 == 0 {
+			p.stats.Vanished++
+			return nil
+		}
 	}
 	return v
 }
